@@ -9,6 +9,7 @@ object invariant, the clock moves forward).
 """
 from __future__ import annotations
 
+from pyvc.values import unmodelled as _unmodelled  # noqa: E402
 import z3
 
 from . import sym, aio
@@ -110,7 +111,7 @@ class WriterModel:
                     return None
                 return aio.Awaitable("wait_closed", run)
             return Builtin("writer.wait_closed", wait_closed)
-        raise it.exc("AttributeError", name)
+        raise _unmodelled(self, name)
 
 
 class ReaderModel:
@@ -185,7 +186,7 @@ class ReaderModel:
                 w.event("read-other", self, name)
                 raise Unsupported(f"StreamReader.{name} (segmentation dependent) is outside the contract")
             return Builtin("reader." + name, other)
-        raise it.exc("AttributeError", name)
+        raise _unmodelled(self, name)
 
 
 # -------------------------------------------------------------------------------------------
@@ -285,7 +286,7 @@ class AbsSet:
             return Builtin("set.union", union)
         if name == "clear":
             raise Unsupported("clear() of an abstract set")
-        raise it.exc("AttributeError", name)
+        raise _unmodelled(self, name)
 
     def py_truth(self, it):
         return sym.fresh_bool("nonempty_" + self.name)
